@@ -897,8 +897,106 @@ def tamper_case(target, label):
                 found=[('tamper:%s:%s:%s' % (target, label, e), text) for e, text in bad])
 
 
+# ==================================================================== part 4: an initiator that is not pyikev2
+
+FOREIGN_TARGETS = ('AUTH', 'CCSA', 'REKEY')
+DECOY_SPI = b'\xde\xc0\xde\x01'
+
+
+def foreign_variants(real):
+    """(label, proposals) - requests with several proposals, as RFC 7296 3.3 allows and pyikev2 never sends"""
+    num, proto, spi, ts = real
+    other = AH if proto == ESP else ESP
+    other_suite = ((3, 12, None), (5, 0, None)) if other == AH else ((1, 12, 256), (3, 12, None), (5, 0, None))
+    foreign = tuple(T_FOREIGN[t[0]][0][1] for t in ts)
+    yield 'other-protocol-first', [(1, other, DECOY_SPI, other_suite), (2, proto, spi, ts)]
+    yield 'foreign-suite-first', [(1, proto, DECOY_SPI, foreign), (2, proto, spi, ts)]
+    yield 'foreign-suite-last', [(1, proto, spi, ts), (2, proto, DECOY_SPI, foreign)]
+    yield 'two-decoys-first', [(1, other, DECOY_SPI, other_suite), (2, proto, b'\xde\xc0\xde\x02', foreign), (3, proto, spi, ts)]
+    yield 'acceptable-twice', [(1, proto, DECOY_SPI, ts[:1] + ts[2:] if len(ts) > 3 else ts), (2, proto, spi, ts)]
+
+
+def foreign_case(target, label):
+    tap = Tap(S.base_confs(a_over=T_IKE, b_over=T_IKE, a_entry=T_ENT, b_entry=T_ENT))
+    w = tap.w
+    tap.step(('acquire', 'A', 0, 0))
+    tap.step(('deliver', w.net[0].id))
+    tap.step(('deliver', w.net[0].id))
+    if target != 'AUTH':
+        tap.step(('deliver', w.net[0].id))
+        tap.step(('deliver', w.net[0].id))
+        if target == 'CCSA':
+            tap.step(('acquire', 'A', 0, 0))
+        else:
+            sa = w.endpoints['A'].controller.ike_sas[0]
+            tap.step(('expire', 'A', bytes(sa.child_sas[0].inbound_spi), False))
+    d = w.net[0]
+    m = tap.open(d)
+    sa_idx = [i for i, (ty, _) in enumerate(m['payloads']) if ty == 33][0]
+    real = dec_sa(m['payloads'][sa_idx][1])[0]
+    props = dict(foreign_variants(real))[label]
+    pl = list(m['payloads'])
+    pl[sa_idx] = (33, enc_sa(props))
+    data = seal_datagram(m, pl, tap.keys_for(d))
+    tap.step(('drop', d.id))
+    sent = len(w.sent_log)
+    tap.step(('inject', 'B', data, S.IP_A))
+    bad = []
+    policy = child_policy(T_ENT, ESP, with_dh=(target != 'AUTH'))
+    exp = R.select(policy, [(p[0], p[1], p[2], p[3]) for p in props])
+    ress = [view(tap.open(x)) for x in w.sent_log[sent:] if x.sender == 'B']
+    ress = [v for v in ress if v and v['resp']]
+    if not ress:
+        bad.append(('no-reply', 'no reply to the request'))
+    elif exp is None:
+        if ress[0]['sa']:
+            bad.append(('accepted-unacceptable', 'reply SA %r' % (ress[0]['sa'],)))
+    else:
+        got = ress[0]['sa']
+        if not got or len(got) != 1:
+            bad.append(('refused-or-odd-reply', 'reference chooses proposal #%d, reply SA=%r notifications=%r' % (
+                exp['number'], got, sorted(ress[0]['notes']))))
+        else:
+            g = got[0]
+            if g[0] != exp['number'] or g[1] != exp['protocol'] or set(g[3]) != exp['suite'] or len(g[3]) != len(set(g[3])):
+                bad.append(('wrong-proposal', 'reply proposal #%d proto %d %s, reference #%d proto %d %s' % (
+                    g[0], g[1], show(g[3]), exp['number'], exp['protocol'], show(sorted(exp['suite'])))))
+            # the responder sends towards the SPI of the proposal it CHOSE
+            b = w.endpoints['B']
+            kids = [c for s in b.controller.ike_sas for c in s.child_sas]
+            if not kids or bytes(kids[-1].outbound_spi) != exp['spi']:
+                bad.append(('outbound-spi-not-of-chosen-proposal', 'B tracks outbound SPI %s, the chosen proposal carries %s' % (
+                    kids[-1].outbound_spi.hex() if kids else None, exp['spi'].hex())))
+            if not any(k[2] == exp['spi'] and k[0] == S.IP_A for k in b.kernel.sad):
+                bad.append(('outbound-sa-not-of-chosen-proposal', 'no SA towards A with SPI %s in B\'s kernel: %s' % (
+                    exp['spi'].hex(), sorted((k[0], k[2].hex()) for k in b.kernel.sad))))
+    for _ in range(30):
+        if not w.net:
+            break
+        tap.step(('deliver', w.net[0].id))
+    for name, ep in w.endpoints.items():
+        if not ep.alive:
+            bad.append(('endpoint-died', '%s: %r' % (name, ep.dead_reason[:2])))
+    a, b = w.endpoints['A'], w.endpoints['B']
+    if a.alive and b.alive and exp is not None and exp['spi'] == real[2]:
+        # the chosen proposal is A's genuine one: A accepts the answer, and both kernels hold mirror images
+        ka, kb = set(a.kernel.sad), set(b.kernel.sad)
+        if ka != kb:
+            bad.append(('kernels-differ', 'SAs (daddr, proto, SPI) only at A %s, only at B %s' % (
+                sorted((x[0], x[2].hex()) for x in ka - kb), sorted((x[0], x[2].hex()) for x in kb - ka))))
+    return dict(outcome=(target, label, exp and exp['number'], len(bad)),
+                found=[('foreign-initiator:%s:%s:%s' % (target, label, e), text) for e, text in bad])
+
+
+def foreign_items():
+    real = (1, ESP, b'\0\0\0\1', child_policy(T_ENT)[1])
+    return [(t, lab) for t in FOREIGN_TARGETS for lab, _ in foreign_variants(real)]
+
+
 def work(item):
     part, arg = item
+    if part == 'foreign':
+        return [foreign_case(*t) for t in arg]
     if part == 'unit':
         return unit_worker(arg)
     if part == 'e2e':
@@ -945,6 +1043,8 @@ def replay(path):
         found = e2e_case(case)['found']
     elif part == 'tamper':
         found = tamper_case(doc['target'], doc['label'])['found']
+    elif part == 'foreign':
+        found = foreign_case(doc['target'], doc['label'])['found']
     for sig, msg in found:
         print('reproduced:', sig, '--', msg)
     print('REPLAY %s' % ('reproduces a violation' if found else 'does not reproduce'))
@@ -967,6 +1067,8 @@ def main():
     work_items = [('unit', (kind, i)) for kind in ('ike', 'child') for i in range(len(U[kind]['locals']))]
     work_items += [('e2e', cases[k:k + 16]) for k in range(0, len(cases), 16)]
     work_items += [('tamper', titems[k:k + 24]) for k in range(0, len(titems), 24)]
+    fitems = foreign_items()
+    work_items += [('foreign', fitems[k:k + 5]) for k in range(0, len(fitems), 5)]
     rnd.shuffle(work_items)
     results = ck.pmap(work, work_items)
     # ---- part 1
@@ -1005,8 +1107,15 @@ def main():
     samples.append(dict(tamper=[list(tboth[i][0]) + [repr(tboth[i][1]['outcome'])]
                                 for i in (1, len(tboth) // 2, len(tboth) - 3)]))
 
+    # ---- part 4
+    fflat = [t for (part, chunk) in work_items if part == 'foreign' for t in chunk]
+    fouts = [r for (part, _), rs in zip(work_items, results) if part == 'foreign' for r in rs]
+    for (target, label), r in sorted(zip(fflat, fouts), key=lambda x: x[0]):
+        for sig, msg in r['found']:
+            ck.violation(sig, msg, dict(part='foreign', target=target, label=label))
+    ck.coverage.update(foreign_initiator=dict(cases=len(fitems), outcomes=sorted({repr(r['outcome']) for r in fouts})[:20]))
     ck.coverage.update(
-        evaluations=n_unit + len(flat) + len(titems),
+        evaluations=n_unit + len(flat) + len(titems) + len(fitems),
         distinct_nontrivial=nt_unit + nt_e2e + nt_tamper,
         rule='every case is generated once (complete products, so all are distinct). unit: non-trivial = at least one of four '
              'plausible wrong selectors (peer preference order / key length ignored / transform type ignored / last acceptable '
